@@ -20,6 +20,20 @@ WHAT = {
 
 
 def results():
+    """one witness build at a time (several thorough checks may run side by side and share the scratch crate and target directory); the
+    result is cached under the hash of the tree"""
+    import fcntl
+    os.makedirs(engine.WORK, exist_ok=True)
+    lock = open(os.path.join(engine.WORK, "witness.lock"), "w")
+    fcntl.flock(lock, fcntl.LOCK_EX)
+    try:
+        return _results()
+    finally:
+        fcntl.flock(lock, fcntl.LOCK_UN)
+        lock.close()
+
+
+def _results():
     th = engine.tree_hash(engine.REPO)
     cache = os.path.join(engine.WORK, "witness-%s.json" % th)
     if os.path.exists(cache):
